@@ -453,17 +453,19 @@ class BindStateBase:
 
         The expected event is defined by the State's sent_cmd, rcvd_msg methods.
         """
-        try:
-            await asyncio.wait_for(self._fut, timeout)
+        try:  # shield, as wait_for() would otherwise cancel the fut upon timeout
+            await asyncio.wait_for(asyncio.shield(self._fut), timeout)
         except TimeoutError:
             self._handle_wait_timer_expired(timeout)
-        else:
-            self._set_context_state(self._next_ctx_state)
         result: Message = self._fut.result()  # may raise exception
+        self._set_context_state(self._next_ctx_state)
         return result
 
     def _handle_wait_timer_expired(self, timeout: float) -> None:
         """Process an overrun of the wait timer when waiting for a Message."""
+
+        if self._fut.done():  # has the msg, or has already failed (other timer)
+            return
 
         msg = (
             f"{self._context}: Failed to transition to {self._next_ctx_state}: "
